@@ -47,6 +47,7 @@ CONSTANTS
   MaxSeq = %(maxseq)d
   MaxMsg = 16
   LongFirst = {%(longfirst)s}
+  LongTooks = {%(longtooks)s}
   Tooks = {%(tooks)s}
 """
 MC_INVS = "".join("INVARIANT %s\n" % c for c in CLAUSES[:6])
@@ -90,25 +91,25 @@ def tlc_eval(wd, tag, enc, rx, timeout=600, parts=1):
     heads = [None] * len(enc)
     verdicts = [None] * len(rx)
     jobs = []
-    if enc or not rx:
+    if enc:
         jobs.append(("e", enc, [], 0))
     if rx:
         parts = max(1, min(parts, len(rx)))
         size = (len(rx) + parts - 1) // parts
         for k in range(0, len(rx), size):
             jobs.append(("r%d" % k, [], rx[k : k + size], k))
-    wd.write("CoapTcpEval_run.cfg", "")
+    wd.write("CoapTcpEval_run.cfg", "SPECIFICATION ESpec\nINVARIANT Report\nCHECK_DEADLOCK FALSE\n")
 
     def one(job):
         name, e, r, base = job
         tf = wd.file("%s-%s.json" % (tag, name))
         with open(tf, "w") as f:
             json.dump({"enc": e, "rx": r}, f, separators=(",", ":"))
-        res = tlc.run(wd, "CoapTcpEval.tla", "CoapTcpEval_run.cfg", workers=1, timeout=timeout, env={"TRACE_FILE": tf, "JAVA_TOOL_OPTIONS": "-Xss512m"}, heap="3g")
+        res = tlc.run(wd, "CoapTcpEval.tla", "CoapTcpEval_run.cfg", workers=1, timeout=timeout, env={"TRACE_FILE": tf, "JAVA_TOOL_OPTIONS": "-Xss512m -XX:ParallelGCThreads=2 -XX:TieredStopAtLevel=1"}, heap="3g")
         tlc.need_ok_run(res, "CoapTcpEval " + tag)
         return job, res
 
-    with ThreadPoolExecutor(max_workers=8) as ex:
+    with ThreadPoolExecutor(max_workers=12) as ex:
         results = list(ex.map(one, jobs))
     for (name, e, r, base), res in results:
         for v in tlc.printed_values(res):
@@ -284,8 +285,23 @@ def gen_frame(rng, kind, maxmsg, ptoks, big_ok):
     if kind == "sig-crit":
         code = rng.choice(KNOWN_SIG)
         name = {CSM: "csm", PING: "ping", PONG: "pong", RELEASE: "release", ABORT: "abort"}[code]
-        opts = [[rng.choice([1, 3, 7, 301]), list(rng.randbytes(rng.randint(0, 2)))]]
-        return Spec(name + "-crit", E(code, rand_token(rng) if code == PING else [], opts))
+        num = rng.choice([1, 3, 3, 7, 301])
+        if num == 3 and rng.random() < 0.5:
+            # in the request/response number space 3 is a string option
+            val, name = rng.choice([[0xC5], [0xFF, 0x61]]), name + "-crit-bin3"
+        elif num == 3:
+            val, name = list(b"ab"), name + "-crit"
+        else:
+            val, name = list(rng.randbytes(rng.randint(0, 2))), name + "-crit"
+        return Spec(name, E(code, rand_token(rng) if code == PING else [], [[num, val]]))
+    if kind == "sig-elective":
+        # unknown elective options (even numbers) are to be ignored whatever their value
+        code = rng.choice([CSM, CSM, PING, PONG])
+        name = {CSM: "csm", PING: "ping", PONG: "pong"}[code]
+        num = rng.choice([6, 8, 8, 20, 1000])
+        val = rng.choice([[0xFF], [0xC3], list(b"ok"), [0x80, 0x80]])
+        binary = num in (8, 20) and val != list(b"ok")
+        return Spec(name + ("+o%dbin" % num if binary else "+elective"), E(code, rand_token(rng) if code == PING else [], [[num, val]]))
     if kind == "empty":
         pay = rng.choice([b"", b"", b"x"])
         return Spec("empty", E(0, rand_token(rng), [], len(pay)), pay)
@@ -381,6 +397,7 @@ KIND_WEIGHTS = [
     ("release", 3),
     ("abort", 3),
     ("sig-crit", 4),
+    ("sig-elective", 3),
     ("req-badutf8", 3),
     ("tkl", 3),
     ("badopt", 4),
@@ -433,7 +450,7 @@ def boundary_sequences(rng, tier):
                     "role": "client",
                 }
             )
-    for k in ("sig-crit", "tkl", "badopt", "oversize", "oversize-hdr", "req-badutf8", "release", "abort", "empty", "sig-unknown"):
+    for k in ("sig-crit", "sig-elective", "tkl", "badopt", "oversize", "oversize-hdr", "req-badutf8", "release", "abort", "empty", "sig-unknown"):
         for mm in (64, 1200):
             csm = gen_frame(rng, "csm", mm, [], False)
             x = gen_frame(rng, k, mm, [], False)
@@ -574,21 +591,19 @@ def behaviours_to_cases(behaviours, arch):
 
 
 def compare_with_model(case, obs):
-    """None if the execution went as the model behaviour predicted (the
-    implementation may close later than a model that reacts to the first byte
-    of a doomed frame, and may close after the peer's Release/Abort)."""
+    """None if the execution went as the model behaviour predicted, compared
+    chunk by chunk for as long as the model judges (done = "no") and the
+    implementation has not closed; what lies beyond is the evaluator's business."""
     nd = 0
     for k, exp in enumerate(case["expect"]):
         if k >= len(obs["steps"]):
-            return "model continues after chunk %d, implementation stopped" % k
+            return None
         s = obs["steps"][k]
         nd += len(s["disp"])
+        if exp["done"] != "no" or s["closed"] or s["exc"]:
+            return None
         if nd != exp["ndisp"]:
             return "after chunk %d model has dispatched %d messages, implementation %d" % (k + 1, exp["ndisp"], nd)
-        if bool(s["closed"]) != bool(exp["closed"]) and exp["done"] not in ("fatal", "peer"):
-            return "after chunk %d model closed=%s, implementation closed=%s" % (k + 1, exp["closed"], s["closed"])
-    if case["expect"] and case["expect"][-1]["done"] == "fatal" and not obs["steps"][-1]["closed"]:
-        return "model ends closed after a fatal frame, implementation did not close"
     return None
 
 
@@ -613,10 +628,44 @@ def work(rep, args):
         return replay(rep, args)
 
     with tlc.Workdir() as wd:
-        # ---- 1. exhaustive model check --------------------------------------
-        consts = dict(maxseq=3, longfirst="1" if quick else ",".join(str(i) for i in range(1, NARCH + 1)), tooks="TRUE, FALSE")
+        # ---- inputs for the evaluator (generated; what is expected comes from TLC)
+        sers = ser_cases(rng, args.tier)
+        seqs = boundary_sequences(rng, args.tier)
+        nrand = 100 if quick else 3000
+        nbig = 0
+        for i in range(nrand):
+            big_ok = (nbig < (3 if quick else 30)) and rng.random() < 0.1
+            sq = gen_sequence(rng, big_ok)
+            if any(s.enc["plen"] > 60000 for s in sq["specs"]):
+                nbig += 1
+            seqs.append(sq)
+        enc = [s.enc for s in sers] + [s.enc for sq in seqs for s in sq["specs"]]
+
+        allarch = ",".join(str(i) for i in range(1, NARCH + 1))
+        consts = dict(maxseq=3, longfirst="1" if quick else allarch, longtooks="TRUE" if quick else "TRUE, FALSE", tooks="TRUE, FALSE")
         wd.write("CoapTcp_mc.cfg", MC_CFG % consts + MC_INVS)
-        mc = tlc.run(wd, "CoapTcp.tla", "CoapTcp_mc.cfg", timeout=240 if quick else 1500)
+        nsim = 250 if quick else 6000
+        simdir = wd.file("sim")
+        os.makedirs(simdir)
+        wd.write("CoapTcp_sim.cfg", MC_CFG % dict(maxseq=3, longfirst=allarch, longtooks="TRUE", tooks="TRUE"))
+
+        # ---- 1. exhaustive model check, 2. behaviours of the model, 3. reference
+        #         framing: three independent TLC runs, side by side
+        def job_mc():
+            fast = {"JAVA_TOOL_OPTIONS": "-XX:TieredStopAtLevel=1 -XX:ParallelGCThreads=4"}  # short run: no point in C2
+            r = tlc.run(wd, "CoapTcp.tla", "CoapTcp_mc.cfg", timeout=300 if quick else 1800, workers=8 if quick else 14, env=fast if quick else None)
+            return r, time.time() - t0
+
+        def job_sim():
+            r = tlc.run(wd, "CoapTcp.tla", "CoapTcp_sim.cfg", workers=1, timeout=600, env={"JAVA_TOOL_OPTIONS": "-XX:TieredStopAtLevel=1 -XX:ParallelGCThreads=2"}, simulate="file=%s/tr,num=%d" % (simdir, nsim), depth=60, seed=seed + 1)
+            return r, time.time() - t0
+
+        def job_enc():
+            return tlc_eval(wd, "enc", enc, [], timeout=600), time.time() - t0
+
+        with ThreadPoolExecutor(max_workers=3) as ex:
+            f_mc, f_sim, f_enc = ex.submit(job_mc), ex.submit(job_sim), ex.submit(job_enc)
+            (mc, t_mc), (sim, t_sim), ((heads, _), t_enc) = f_mc.result(), f_sim.result(), f_enc.result()
         tlc.need_ok_run(mc, "CoapTcp model check")
         if mc.violated:
             raise MachineryError(
@@ -628,35 +677,12 @@ def work(rep, args):
             arch[v[1]] = (v[2], v[3])
         if len(arch) != NARCH:
             raise MachineryError("archetype table incomplete: %s" % sorted(arch))
-        t_mc = time.time() - t0
-
-        # ---- 2. behaviours of the model --------------------------------------
-        nsim = 400 if quick else 6000
-        simdir = wd.file("sim")
-        os.makedirs(simdir)
-        wd.write("CoapTcp_sim.cfg", MC_CFG % dict(maxseq=3, longfirst=",".join(str(i) for i in range(1, NARCH + 1)), tooks="TRUE"))
-        sim = tlc.run(wd, "CoapTcp.tla", "CoapTcp_sim.cfg", workers=1, timeout=600, simulate="file=%s/tr,num=%d" % (simdir, nsim), depth=60, seed=seed + 1)
         tlc.need_ok_run(sim, "CoapTcp simulation")
         behaviours = tlc.read_sim_traces(os.path.join(simdir, "tr"))
         model_cases = behaviours_to_cases(behaviours, arch)
         if not model_cases:
             raise MachineryError("no behaviours from simulation")
-        t_sim = time.time() - t0
-
-        # ---- 3. generated inputs; reference framing from TLC ------------------
-        sers = ser_cases(rng, args.tier)
-        seqs = boundary_sequences(rng, args.tier)
-        nrand = 160 if quick else 3000
-        nbig = 0
-        for i in range(nrand):
-            big_ok = (nbig < (4 if quick else 60)) and rng.random() < 0.1
-            sq = gen_sequence(rng, big_ok)
-            if any(s.enc["plen"] > 60000 for s in sq["specs"]):
-                nbig += 1
-            seqs.append(sq)
-        enc = [s.enc for s in sers] + [s.enc for sq in seqs for s in sq["specs"]]
-        heads, _ = tlc_eval(wd, "enc", enc, [], timeout=600)
-        t_enc = time.time() - t0
+        t_tlc = time.time() - t0
 
         # outgoing: _serialize / _send_message against the reference
         ser_inputs = []
@@ -703,14 +729,14 @@ def work(rep, args):
                 raise MachineryError("driver failed on case %s\n%s" % ([f["k"] for f in c["frames"]], o["error"]))
             if len(o["steps"]) < len(c["cuts"]) and not (o["steps"] and (o["steps"][-1]["closed"] or o["steps"][-1]["exc"])):
                 raise MachineryError("driver stopped early without reason on %s" % [f["k"] for f in c["frames"]])
-        t_run = time.time() - t0
+        t_run = time.time() - t0 - t_tlc
 
         # ---- 4. the recorded executions go back to TLC ----------------------------
         rx = [rx_record(c, o) for c, o in zip(all_cases, results)]
-        _, verdicts = tlc_eval(wd, "judge", [], rx, timeout=900 if quick else 2400, parts=8)
-        t_judge = time.time() - t0
+        _, verdicts = tlc_eval(wd, "judge", [], rx, timeout=900 if quick else 2400, parts=6 if quick else 12)
+        t_judge = time.time() - t0 - t_tlc - t_run
         if os.environ.get("C15_TIMING"):
-            print("timing mc %.1f sim %.1f enc %.1f run %.1f judge %.1f; cases %d" % (t_mc, t_sim, t_enc, t_run, t_judge, len(all_cases)))
+            print("timing mc %.1f sim %.1f enc %.1f (parallel: %.1f) run %.1f judge %.1f; cases %d" % (t_mc, t_sim, t_enc, t_tlc, t_run, t_judge, len(all_cases)))
 
         ndrift_model = 0
         for c, o in zip(model_cases, results):
@@ -757,7 +783,7 @@ def work(rep, args):
             {
                 "states": mc.distinct,
                 "transitions": mc.generated,
-                "mc_constants": {"MaxSeq": 3, "MaxMsg": MODEL_MAXMSG, "archetypes": NARCH, "first_of_length3_sequences": "csm only" if quick else "any", "receiver_kinds": 2},
+                "mc_constants": {"MaxSeq": 3, "MaxMsg": MODEL_MAXMSG, "archetypes": NARCH, "length3_sequences": "CSM first, aborting receiver" if quick else "all, both receivers", "receiver_kinds": 2},
                 "exhaustive": True,
                 "traces_validated_against_impl": len(rx),
                 "schedules_from_model_behaviours": len(model_cases),
@@ -774,7 +800,7 @@ def work(rep, args):
                 "clause_violations_by_clause": {k: v for k, v in clause_hits.items() if v},
                 "distinct_nontrivial": len(nontrivial),
                 "evaluations": len(enc) + len(rx),
-                "wall_breakdown_s": {"mc": round(t_mc, 1), "sim": round(t_sim - t_mc, 1), "enc": round(t_enc - t_sim, 1), "run": round(t_run - t_enc, 1), "judge": round(t_judge - t_run, 1)},
+                "wall_breakdown_s": {"mc": round(t_mc, 1), "sim": round(t_sim, 1), "enc": round(t_enc, 1), "mc_sim_enc_side_by_side": round(t_tlc, 1), "run": round(t_run, 1), "judge": round(t_judge, 1)},
                 "samples": [
                     {"frames": [(f["k"], hexs(f["b"][:24])) for f in all_cases[0]["frames"]], "cuts": all_cases[0]["cuts"], "steps": results[0]["steps"][:4], "verdict": sorted(verdicts[0]["bad"])},
                     {"frames": [(f["k"], hexs(f["b"][:24])) for f in all_cases[si]["frames"]], "cuts": all_cases[si]["cuts"][:12], "verdict": sorted(verdicts[si]["bad"]), "model": verdicts[si]["exp"]},
@@ -809,136 +835,187 @@ def first_csm(frames, upto):
     return None
 
 
+def describe(clause, n, rc, ro, rv):
+    stream = b"".join(bytes(f["b"]) for f in rc["frames"])
+    k = rv["first"]
+    step = ro["steps"][k - 1] if k and k <= len(ro["steps"]) else {}
+    return (
+        "%s false on a real execution (%d executions of this shape).\n"
+        "reproduction: role=%s, local maximum message size %d, %d pending requests; peer sends %s = %s%s in chunks %s\n"
+        "after chunk %d the statement demands: dispatched %d messages (codes %s), written %s, state %s;\n"
+        "the connection dispatched %s, wrote %s, closed=%s, pending=%s%s"
+        % (
+            clause,
+            n,
+            rc["role"],
+            rc["maxmsg"],
+            rc["npend"],
+            [f["k"] for f in rc["frames"]],
+            hexs(stream[:48]),
+            "..." if len(stream) > 48 else "",
+            rc["cuts"][:16],
+            k,
+            rv["exp"]["ndisp"],
+            rv["exp"]["codes"],
+            rv["exp"]["wr"],
+            rv["exp"]["done"],
+            [(d["how"], d["code"], hexs(d["tok"]), len(d["pay"])) for s in ro["steps"][:k] for d in s["disp"]],
+            hexs([x for s in ro["steps"][:k] for x in s["wr"]][:40]),
+            step.get("closed"),
+            step.get("pend"),
+            ("; data_received raised " + step["exc"]) if step.get("exc") else "",
+        )
+    )
+
+
+def replay_data(rc, ro, rv):
+    small = sum(len(f["b"]) for f in rc["frames"]) <= 4096
+    return {
+        "case": {
+            "frames": rc["frames"] if small else [{"k": f["k"], "len": len(f["b"]), "head": f["b"][:16]} for f in rc["frames"]],
+            "cuts": rc["cuts"],
+            "maxmsg": rc["maxmsg"],
+            "npend": rc["npend"],
+            "role": rc["role"],
+        },
+        "replayable": small,
+        "observed": ro["steps"] if small else None,
+        "expected": rv["exp"],
+        "clauses": sorted(rv["bad"]),
+    }
+
+
 def report_failures(rep, wd, all_cases, results, verdicts, failing):
+    """Names every failing execution by clause + the smallest archetype
+    sequence that shows the same clause false: (CSM,) one frame, fed in one
+    piece each, where that suffices; else the frame-by-frame prefix; else the
+    frames touched by the chunk after which the clause was first false."""
     if not failing:
         return
-    # at most a few dozen distinct situations are localised; the rest share their signatures
-    groups = {}
+
+    def clauses_of(v):
+        return sorted(x for x in v["bad"] if x.startswith("C15_"))
+
+    # 1. atomic candidates: (CSM +) one frame, one representative per (csm?, kind)
+    atoms = {}
     for i in failing:
-        c, v = all_cases[i], verdicts[i]
-        bad = tuple(sorted(x for x in v["bad"] if x.startswith("C15_")))
-        # frames (partly) delivered in the first bad chunk
+        c = all_cases[i]
+        for j, f in enumerate(c["frames"]):
+            if not f["b"]:
+                continue
+            csm = first_csm(c["frames"], j)
+            key = (csm is not None, f["k"], c["npend"] > 0)
+            if key in atoms or len(atoms) >= 150:
+                continue
+            fr = ([csm] if csm else []) + [f]
+            atoms[key] = {"frames": fr, "cuts": [len(x["b"]) for x in fr], "maxmsg": c["maxmsg"], "npend": c["npend"], "role": c["role"]}
+    akeys = list(atoms)
+    ares, aver = judge_cases(wd, "atoms", [atoms[k] for k in akeys])
+    abad = {k: (atoms[k], o, v) for k, o, v in zip(akeys, ares, aver) if clauses_of(v)}
+
+    # 2. explain each failing execution
+    sigs = {}  # signature -> [clause, count, (case, obs, verdict)]
+    unexplained = {}
+
+    def touched_by(c, v):
         pos = sum(c["cuts"][: v["first"]])
         lo = pos - c["cuts"][v["first"] - 1] if v["first"] else 0
-        s = 0
-        touched = []
+        s0 = 0
+        out = []
         for f in c["frames"]:
-            e = s + len(f["b"])
-            if e > lo and s < pos:
-                touched.append(f["k"])
-            s = e
-        key = (bad, tuple(touched))
-        groups.setdefault(key, []).append(i)
-    keys = sorted(groups, key=lambda k: (len(k[1]), k))[:40]
-    cand = []
-    meta = []
-    for key in keys:
-        i = min(groups[key], key=lambda j: (len(all_cases[j]["frames"]), sum(all_cases[j]["cuts"])))
-        c = all_cases[i]
-        base = {"maxmsg": c["maxmsg"], "npend": c["npend"], "role": c["role"]}
-        # A: same frames, one chunk per frame
-        cand.append(dict(base, frames=c["frames"], cuts=[len(f["b"]) for f in c["frames"] if f["b"]]))
-        meta.append((key, i, "A", None))
-        # B_j: (CSM +) frame j alone
-        for j, f in enumerate(c["frames"]):
-            csm = first_csm(c["frames"], j)
-            fr = ([csm] if csm else []) + [f]
-            fr = [x for x in fr if x["b"]]
-            if fr:
-                cand.append(dict(base, frames=fr, cuts=[len(x["b"]) for x in fr]))
-                meta.append((key, i, "B", j))
-    cres, cver = judge_cases(wd, "loc", cand)
-    by_key = {}
-    for (key, i, what, j), c2, o2, v2 in zip(meta, cand, cres, cver):
-        by_key.setdefault(key, {"i": i, "A": None, "B": {}})
-        if what == "A":
-            by_key[key]["A"] = (c2, o2, v2)
-        else:
-            by_key[key]["B"][j] = (c2, o2, v2)
-    sig_of_key = {}
-    for key in keys:
-        bad, touched = key
-        info = by_key[key]
-        i = info["i"]
-        c = all_cases[i]
-        ca, oa, va = info["A"]
-        for clause in bad:
-            shape = None
-            repro = None
-            if clause in va["bad"] and va["first"]:
-                # the frame fed in the first bad step of the frame-by-frame run
-                nonempty = [j for j, f in enumerate(c["frames"]) if f["b"]]
-                j = nonempty[va["first"] - 1]
-                cb = info["B"].get(j)
-                if cb and clause in cb[2]["bad"]:
-                    shape = shape_of(cb[0], 9)
-                    repro = cb
-                else:
-                    shape = shape_of(c, j + 1)
-                    repro = (ca, oa, va)
+            e0 = s0 + len(f["b"])
+            if e0 > lo and s0 < pos:
+                out.append(f["k"])
+            s0 = e0
+        return out
+
+    for i in failing:
+        c, v = all_cases[i], verdicts[i]
+        keys = [(first_csm(c["frames"], j) is not None, f["k"], c["npend"] > 0) for j, f in enumerate(c["frames"])]
+        todo = clauses_of(v)
+        if "NOTE_exception" in v["bad"]:
+            # data_received raised: whatever clauses this execution breaks from there on
+            # are named after the frame that raises on its own
+            hit = next((k for k in keys if k in abad and "NOTE_exception" in abad[k][2]["bad"]), None)
+            if hit:
+                for clause in clauses_of(abad[hit][2]):
+                    e = sigs.setdefault("%s|%s" % (clause, shape_of(abad[hit][0], 9)), [clause, 0, abad[hit]])
+                    e[1] += 1
+                todo = [x for x in todo if x not in ("C15_DispatchIndependentOfChunking", "C15_FatalAborts")]
+        for clause in todo:
+            hit = next((k for k in keys if k in abad and clause in abad[k][2]["bad"]), None)
+            if hit:
+                e = sigs.setdefault("%s|%s" % (clause, shape_of(abad[hit][0], 9)), [clause, 0, abad[hit]])
+                e[1] += 1
             else:
-                shape = "chunking:" + ",".join(touched)
-                repro = (c, results[i], verdicts[i])
-            sig = "%s|%s" % (clause, shape)
-            sig_of_key[(key, clause)] = sig
-            rc, ro, rv = repro
-            stream = b"".join(bytes(f["b"]) for f in rc["frames"])
-            k = rv["first"]
-            step = ro["steps"][k - 1] if k and k <= len(ro["steps"]) else {}
-            detail = (
-                "%s false on a real execution (%d executions in this group).\n"
-                "minimal reproduction: role=%s, local maximum message size %d, %d pending requests; peer sends %s = %s%s in chunks %s\n"
-                "after chunk %d the statement demands: dispatched %d messages (codes %s), written %s, state %s;\n"
-                "the connection dispatched %s, wrote %s, closed=%s, pending=%s%s"
-                % (
-                    clause,
-                    len(groups[key]),
-                    rc["role"],
-                    rc["maxmsg"],
-                    rc["npend"],
-                    [f["k"] for f in rc["frames"]],
-                    hexs(stream[:48]),
-                    "..." if len(stream) > 48 else "",
-                    rc["cuts"][:16],
-                    k,
-                    rv["exp"]["ndisp"],
-                    rv["exp"]["codes"],
-                    rv["exp"]["wr"],
-                    rv["exp"]["done"],
-                    [(d["how"], d["code"], hexs(d["tok"]), len(d["pay"])) for s in ro["steps"][:k] for d in s["disp"]],
-                    hexs([x for s in ro["steps"][:k] for x in s["wr"]][:40]),
-                    step.get("closed"),
-                    step.get("pend"),
-                    ("; data_received raised " + step["exc"]) if step.get("exc") else "",
-                )
-            )
-            small = len(stream) <= 4096
-            rep.violation(
-                clause,
-                sig,
-                detail,
-                {
-                    "case": {"frames": rc["frames"] if small else [{"k": f["k"], "len": len(f["b"]), "head": f["b"][:16]} for f in rc["frames"]], "cuts": rc["cuts"], "maxmsg": rc["maxmsg"], "npend": rc["npend"], "role": rc["role"]},
-                    "replayable": small,
-                    "observed": ro["steps"] if small else None,
-                    "expected": rv["exp"],
-                    "clauses": sorted(rv["bad"]),
-                },
-            )
-    # failing executions beyond the localised groups still count: name them by what the chunk touched
-    for key in groups:
-        if key in keys:
-            continue
-        bad, touched = key
-        i = groups[key][0]
-        for clause in bad:
-            rep.violation(clause, "%s|chunking:%s" % (clause, ",".join(touched)), "%s false (not localised): frames %s cuts %s" % (clause, shape_of(all_cases[i], 12), all_cases[i]["cuts"][:12]), {})
+                unexplained.setdefault((clause, tuple(touched_by(c, v))), []).append(i)
+
+    # 3. the rest: same frames, one chunk per frame
+    ukeys = sorted(unexplained, key=lambda k: (len(k[1]), k))
+    loc = ukeys[:40]
+    cand = []
+    for key in loc:
+        i = min(unexplained[key], key=lambda j: (len(all_cases[j]["frames"]), len(all_cases[j]["cuts"])))
+        c = all_cases[i]
+        fr = [f for f in c["frames"] if f["b"]]
+        cand.append({"frames": fr, "cuts": [len(f["b"]) for f in fr], "maxmsg": c["maxmsg"], "npend": c["npend"], "role": c["role"], "_i": i})
+    cres, cver = judge_cases(wd, "loc", cand) if cand else ([], [])
+    for key, c2, o2, v2 in zip(loc, cand, cres, cver):
+        clause, touched = key
+        i = c2["_i"]
+        if clause in v2["bad"] and v2["first"]:
+            sig = "%s|%s" % (clause, shape_of(c2, v2["first"]))
+            rep_case = (c2, o2, v2)
+        else:
+            sig = "%s|chunking:%s" % (clause, ",".join(touched))
+            rep_case = (all_cases[i], results[i], verdicts[i])
+        e = sigs.setdefault(sig, [clause, 0, rep_case])
+        e[1] += len(unexplained[key])
+    for key in ukeys[40:]:
+        clause, touched = key
+        i = unexplained[key][0]
+        e = sigs.setdefault("%s|chunking:%s" % (clause, ",".join(touched)), [clause, 0, (all_cases[i], results[i], verdicts[i])])
+        e[1] += len(unexplained[key])
+
+    for sig in sorted(sigs):
+        clause, n, (rc, ro, rv) = sigs[sig]
+        rep.violation(clause, sig, describe(clause, n, rc, ro, rv), replay_data(rc, ro, rv))
+
+
+def _keep_evidence():
+    """A replay is not a check run: put the evidence file of the last real run
+    back after runner.finish has written its own."""
+    import atexit
+
+    path = os.path.join(runner.EVIDENCE_DIR, "C15.json")
+    try:
+        old = open(path).read()
+    except OSError:
+        return
+    atexit.register(lambda: open(path, "w").write(old))
 
 
 def replay(rep, args):
+    _keep_evidence()
     with open(args.replay) as f:
         data = json.load(f)
     r = data.get("replay", {})
+    if "message" in r:
+        m = r["message"]
+        pay = bytes((7 * i + 1) & 0xFF for i in range(m["paylen"]))
+        with tlc.Workdir() as wd:
+            heads, _ = tlc_eval(wd, "replay", [E(m["code"], m["tok"], m["opts"], len(pay))], [])
+        want = bytes(heads[0]) + pay
+        got = _ser_one({"code": m["code"], "tok": m["tok"], "opts": m["opts"], "pay": pay})
+        if "error" in got:
+            bad = "raised: " + got["error"].strip().splitlines()[-1]
+        else:
+            bad = next(("%s produced %s..., RFC 8323 3.2 frame is %s..." % (h, hexs(got[h][:12]), hexs(want[:12])) for h in ("direct", "written") if got[h] != want), None)
+        print("replay: message code %d, token %d bytes, %d options, payload %d bytes -> %s" % (m["code"], len(m["tok"]), len(m["opts"]), m["paylen"], bad or "serialised as RFC 8323 prescribes"))
+        if bad:
+            rep.violation("C15_FrameIs8323", data.get("signature", "C15_FrameIs8323|replay"), bad, {"message": m})
+        rep.coverage.update({"states": 0, "transitions": 0, "traces_validated_against_impl": 1, "samples": [hexs(want[:16])]})
+        return
     if not r.get("replayable"):
         raise MachineryError("replay file carries no replayable case")
     case = r["case"]
